@@ -236,6 +236,11 @@ def _meta_check(scen):
     H, W = scen['shape']
     data = rng.normal(5.0, 1.0, (H, W)) + 0.08 * np.arange(W)[None, :] \
         * scen['grad']
+    if scen.get('quant'):
+        # quantised low-count data: many boxes have a median absolute
+        # deviation of exactly 0 without being constant
+        data = np.round(rng.normal(0.0, 0.45, (H, W))) + 5.0 \
+            + np.round(0.08 * np.arange(W)[None, :] * scen['grad'])
     mask = np.zeros((H, W), bool)
     cov = None
     if scen['mask']:
@@ -330,9 +335,15 @@ def _meta_check(scen):
                     ys = slice(j * bh, min((j + 1) * bh, H))
                     xs = slice(i * bw, min((i + 1) * bw, W))
                     vals = d3[ys, xs][~tot[ys, xs]]
-                    if 100.0 * (bh * bw - vals.size) / (bh * bw) > 30.0 - 1e-9:
-                        continue      # excluded (or at the threshold)
+                    if vals.size == 0:
+                        continue
                     cl = SigmaClip(3.0)(vals, masked=False)
+                    # (documented: pixels rejected by the sigma clip count
+                    # as masked for exclude_percentile; boxes within one
+                    # pixel of the threshold are skipped)
+                    if 100.0 * (bh * bw - cl.size + 1) / (bh * bw) > \
+                            30.0 - 1e-9:
+                        continue
                     want = type(est)(sigma_clip=None)(cl)
                     wr = StdBackgroundRMS(sigma_clip=None)(cl)
                     if scen.get('twin'):
@@ -380,6 +391,8 @@ def _run_meta(case):
                     scale=ctx.choice('scale', [1.0, 3.0, 1e-10, 1e13]))
         if case.get('twin'):
             scen['twin'] = True
+        if case.get('quant'):
+            scen['quant'] = True
         ctx.stats.obligations += 1
         cnt['n'] += 1
         msg = _meta_check(scen)
@@ -425,6 +438,9 @@ def cases(tier, seed):
         cs.append(dict(kind='meta', name=f'bkg-real-{e}', est=e))
     cs.append(dict(kind='meta', name='bkg-real-mesh-twin', est='mmm',
                    twin=True))
+    for e in ('biweight', 'median'):
+        cs.append(dict(kind='meta', name=f'bkg-real-{e}-quantised', est=e,
+                       quant=True))
     if tier == 'thorough':
         for shape, box in [((5, 5), (2, 2)), ((5, 4), (2, 3)),
                            ((6, 5), (3, 2)), ((5, 6), (5, 6))]:
